@@ -18,6 +18,7 @@ No source hooks: source lines are found by text patterns at run time.
 """
 from __future__ import annotations
 
+import _thread
 import linecache
 import os
 import re
@@ -47,8 +48,11 @@ class _T:
         self.name = name
         self.target = target
         self.thread = None
-        self.go = threading.Semaphore(0)      # scheduler -> thread: run to the next stop point
-        self.halt = threading.Semaphore(0)    # thread -> scheduler: stopped (or done)
+        # binary signals (raw locks, released by the other side; each release is consumed once)
+        self.go = _thread.allocate_lock()     # scheduler -> thread: run to the next stop point
+        self.go.acquire()
+        self.halt = _thread.allocate_lock()   # thread -> scheduler: stopped (or done)
+        self.halt.acquire()
         self.stop: Stop | None = None
         self.done = False
         self.started = False
